@@ -310,6 +310,9 @@ func (m *Manager) AssignAddress(ctx context.Context, sessionID string, ipv4PoolI
 		}
 
 		m.mu.Lock()
+		if session.IPv4 != nil && !session.IPv4.Equal(ip) && m.byIP[session.IPv4.String()] == sessionID {
+			delete(m.byIP, session.IPv4.String()) // the address changed: drop the old index entry
+		}
 		session.IPv4 = ip
 		session.SubnetMask = mask
 		session.Gateway = gateway
@@ -328,6 +331,9 @@ func (m *Manager) AssignAddress(ctx context.Context, sessionID string, ipv4PoolI
 			)
 		} else {
 			m.mu.Lock()
+			if session.IPv6 != nil && !session.IPv6.Equal(ip) && m.byIP[session.IPv6.String()] == sessionID {
+				delete(m.byIP, session.IPv6.String())
+			}
 			session.IPv6 = ip
 			session.IPv6Prefix = prefix
 			if ip != nil {
